@@ -180,6 +180,9 @@ func e1BaseGrid(tier string) []e1Grid {
 		{mcfg("mpegts", false, 3, "h264bk"), "reorder"},
 		{mcfg("mpegts", false, 3, "h264k", "aac44"), "inter"},
 		{mcfg("fmp4", false, 3, "h264", "aacsbr"), "inter"},
+		// a small SegmentMaxSize: words end at the Write that is refused (a Write that returns nil has stored its units)
+		{func() muxCfg { c := mcfg("fmp4", false, 3, "h264", "aac44"); c.MaxSize = 60; return c }(), "inter"},
+		{func() muxCfg { c := mcfg("ll", false, 7, "h264", "opus"); c.MaxSize = 90; return c }(), "inter"},
 		{mcfg("ll", false, 7, "aacsbr"), "audio"},
 		{mcfg("fmp4", false, 3, "h265b"), "reorder"},
 		{mcfg("ll", false, 7, "h265b", "aac44"), "reorder"},
